@@ -164,6 +164,11 @@ def format_contraction(contraction: Contraction,
                                f"contraction {contraction}.")
         # we have a tensor that we need to treat depening on the backend
         elif backend == "einsum":  # translate eri and fock matrix
+            if any(len(idx.name) != 1 for idx in indices):
+                raise NotImplementedError(
+                    "einsum subscripts have to be single letters. Found "
+                    f"indices {indices} on tensor {name}."
+                )
             name = translate_adcc_names(name, indices)
         elif backend == "libtensor":
             # we can not form a partial trace in libtensor
